@@ -111,7 +111,16 @@ func runC02(p *Prog, r *Report) {
 		if len(sg) == 0 {
 			sg = sm.Ev("call", "sync.(*Cond).Broadcast")
 		}
-		ok := len(sg) == 1 && len(sg[0].Guard) == 3 && hasAtom(sg[0].Guard, "select#0 == 1") && sg.AllHeld(xm)
+		// unconditional: reached on the enqueue arm with no condition beyond "not closed" and
+		// the outcome of the select itself (whatever the order of its cases)
+		ok := len(sg) == 1 && hasAtomPrefix(sg[0].Guard, "arm(") && hasAtomSuffix(sg[0].Guard, "sendQ<-)") && sg.AllHeld(xm)
+		if ok {
+			for _, a := range sg[0].Guard {
+				if a != "!recv.closed" && !strings.HasPrefix(a, "arm(") && !strings.HasPrefix(a, "!arm(") {
+					ok = false
+				}
+			}
+		}
 		r.Check(ok, R, "SendMsg/unconditional-wakeup", sg.Pos(p), "every successful enqueue signals the scheduler, under the lock", "the scheduler wake-up after an enqueue is conditional or missing: concurrent senders can both skip it and their messages sit in the queue with an idle peer (lost wake-up): "+guardsOf(sg))
 	}
 	apu := q.Fn(R, "protocol/xpush", "socket", "AddPipe")
